@@ -1104,6 +1104,8 @@ func c15RunOnce(c *core.Ctx, k c15Case) *c15Out {
 		return c15RunClosers(c, k)
 	case "api":
 		return c15RunAPI(c, k)
+	case "gate":
+		return c15RunGate(c, k)
 	}
 	return &c15Out{setupErr: fmt.Errorf("unknown kind %q", k.Kind)}
 }
@@ -1477,6 +1479,11 @@ func c15Cost(k c15Case) float64 {
 			c += 1.2 * float64(mathMax(1, k.Sessions))
 		}
 		return c
+	case "gate":
+		if k.UDP {
+			return 2
+		}
+		return 2 + 1.2*float64(k.Sessions)
 	case "deadline":
 		c := 0.5
 		for _, st := range k.Steps {
@@ -1653,6 +1660,11 @@ func init() {
 				// the boundaries the quantifier names: on every run, before the random stream
 				for _, k := range c15BoundaryCases(c.Thorough()) {
 					c.Hist("boundary", k.Kind+"-"+c15Transport(k.UDP)+"-"+k.End+k.Ender)
+					cases = append(cases, k)
+				}
+				// every place where an event loop arms a read timeout, raced deterministically with Close
+				for _, k := range c15GateCases() {
+					c.Hist("boundary", fmt.Sprintf("gate-%s-%s-%s-%d", k.Ender, k.End, c15Transport(k.UDP), k.Sessions))
 					cases = append(cases, k)
 				}
 			}
